@@ -72,7 +72,8 @@ CHECKS = {
         level_text="seeded random sequences of writes (tiny to exactly S), destructive reads, peek+reclaim and non-destructive file snapshots on overwrite rings of all sizes; every chunk that "
                    "comes out must be a written one, in order, gap-free up to the newest, and never fewer than the newest chunks that fit S",
         level_note="trusted: the model (set of possible consumed boundaries, so byte-identical chunks cannot cause a wrong guess), ASan/UBSan",
-        stages=[rnd("ring", "c11", 250000, 5000000, essential=["wrapped_twice", "multi_reclaim", "snapshot_after_wrap", "semaphore", "near_capacity_chunk", "read_after_overwrite", "full_S_chunk", "peek"])],
+        stages=[rnd("ring", "c11", 250000, 5000000, essential=["wrapped_twice", "multi_reclaim", "snapshot_after_wrap", "semaphore", "near_capacity_chunk", "read_after_overwrite", "full_S_chunk", "peek"]),
+                rnd("blackbox", "c11b", 6000, 300000, essential=["wrapped_and_dropped", "dump_mid_sequence", "too_long_record", "many_records"])],
         assumptions=["single writer/reader thread", "snapshots need the private /dev/shm namespace (qb_rb_create_from_file uses a fixed name)"],
     ),
     "C19": dict(
@@ -127,5 +128,19 @@ CHECKS = {
                                                                 "unknown_directive", "long_format", "empty_message", "trailing_newline", "extended_marker", "rejected_limit", "right_align", "static_directive", "two_targets"])],
         assumptions=["format strings are ASCII", "a line that fills the buffer exactly may or may not carry the ellipsis (the implementation cannot tell it from a cut one)",
                      "the tag stringifier returns a non-NULL string"],
+    ),
+    "C15": dict(
+        title="blackbox dump files: round trip and robustness",
+        level="exploration",
+        design_ref="DESIGN.md section 4, C15",
+        technique="round-trip property testing (log -> dump -> print -> parse) + structure-aware file corruption fuzzing with ASan/UBSan, guard pages around ring mappings, /dev/shm and fd residue oracles",
+        level_text="generated record sequences are logged into the blackbox under a virtual realtime clock, dumped at generated moments, printed and compared field by field (priority, function, line, tags, "
+                   "timestamp to the millisecond, message); the last dump is then damaged in 8-40 generated ways per case (truncations, each header word incl. aliasing pointer values, chunk headers, every "
+                   "record field at boundary values with a valid header hash, random byte runs, non-dumps, old-format headers) and every variant is printed: must return, no sanitizer report, no residue",
+        level_note="trusted: the printout parser in the harness; mmap is interposed so that every ring mapping is surrounded by 16 MiB PROT_NONE guards (ASan does not police mmap'd memory)",
+        stages=[rnd("file", "c15", 12000, 600000, essential=["wrapped_and_dropped", "dump_mid_sequence", "too_long_record", "truncated_file", "header_word_damaged", "chunk_header_damaged",
+                                                               "record_field_damaged", "random_bytes", "not_a_dump", "old_format_header", "hash_valid_but_damaged", "print_partial_then_error"])],
+        assumptions=["default line length (the reader's buffers are sized by QB_LOG_MAX_LEN)", "function name and tags are functions of the call site (file, line), as the dynamic call-site registry requires",
+                     "records whose serialised form is within a few bytes of the 512-byte limit are not generated (stored vs. replaced by the notice is not pinned down by the statement)"],
     ),
 }
